@@ -318,4 +318,55 @@ mod verif_c16_control {
             "C16.Cr4_update.read_f_write: exactly one control register write"
         );
     }
+
+    // ------------------------------------------------- MSR (public API only)
+    // Msr lives in model_specific.rs; only its public read/write are used, so
+    // the harnesses can sit in this file. They pin the ecx / edx:eax binding.
+
+    //@ obligation C16 C16.Msr_read.edx_eax_of_index
+    #[kani::proof]
+    fn c16_msr_read_edx_eax_of_index() {
+        use crate::registers::model_specific::Msr;
+        verif_hw::reset_symbolic();
+        let idx = verif_hw::m().msr_index;
+        let val = verif_hw::m().msr_value;
+        // the three base MSRs alias fs_base / gs_base / kernel_gs_base in the model
+        kani::assume(idx < 0xC000_0100 || idx > 0xC000_0102);
+        kani::cover!(true, "c16_msr_read_edx_eax_of_index: reachable");
+        let r = unsafe { Msr::new(idx).read() };
+        let m = verif_hw::m();
+        assert!(
+            r == val,
+            "C16.Msr_read.edx_eax_of_index: result == (edx << 32) | eax of MSR[index]"
+        );
+        assert!(
+            m.only_event_is(Kind::Rdmsr, idx as u64, val & 0xffff_ffff, val >> 32),
+            "C16.Msr_read.edx_eax_of_index: exactly one rdmsr with ecx == index"
+        );
+        assert!(
+            m.msr_value == val,
+            "C16.Msr_read.edx_eax_of_index: the register is unchanged"
+        );
+    }
+
+    //@ obligation C16 C16.Msr_write.edx_eax_to_index
+    #[kani::proof]
+    fn c16_msr_write_edx_eax_to_index() {
+        use crate::registers::model_specific::Msr;
+        verif_hw::reset_symbolic();
+        let idx = verif_hw::m().msr_index;
+        let val: u64 = kani::any();
+        kani::assume(idx < 0xC000_0100 || idx > 0xC000_0102);
+        kani::cover!(true, "c16_msr_write_edx_eax_to_index: reachable");
+        unsafe { Msr::new(idx).write(val) };
+        let m = verif_hw::m();
+        assert!(
+            m.msr_value == val,
+            "C16.Msr_write.edx_eax_to_index: MSR[index] == value"
+        );
+        assert!(
+            m.only_event_is(Kind::Wrmsr, idx as u64, val & 0xffff_ffff, val >> 32),
+            "C16.Msr_write.edx_eax_to_index: exactly one wrmsr, ecx == index, eax low half, edx high half"
+        );
+    }
 }
